@@ -89,7 +89,11 @@ def all_cases(tier, seed=0):
 
 def jobs(tier, seed):
     n = 64 if tier == "thorough" else 16
-    return [{"tier": tier, "seed": seed, "i": i, "n": n} for i in range(n)]
+    js = [{"tier": tier, "seed": seed, "i": i, "n": n} for i in range(n)]
+    # what a reply says does not depend on the host's zone: the time fields again with the host far from UTC
+    for zone in ("Asia/Kathmandu", "America/St_Johns", "Pacific/Kiritimati"):
+        js.append({"tier": tier, "seed": seed, "zone": zone})
+    return js
 
 
 def _nm(x):
@@ -156,8 +160,8 @@ def build_reply(op, f):
 
 
 class Runner:
-    def __init__(self):
-        set_zone("UTC")
+    def __init__(self, zone="UTC"):
+        set_zone(zone)
         self.clock = Clock(1_700_000_000.0)
         self.clock.__enter__()
         self.w = {1: ApiWorld(1), 2: ApiWorld(2)}
@@ -180,33 +184,52 @@ class Runner:
         self.clock.__exit__(None, None, None)
 
 
+def zone_cases(tier):
+    T = sorted(set(range(0, 86400, 997 if tier == "quick" else 61)) | set(T_CORNERS))
+    base = dict(on=True, watts=2600, time_left=5400, time_on=1799, auto_off=7200)
+    cs = []
+    for t in T:
+        cs.append(("get_state", dict(base, time_left=t, time_on=(t * 7) % 86400, auto_off=86399 - t)))
+    tb = dict(on=True, mode="cool", fan="low", swing=False, temp_tenths=281, target=24, remote="ELEC7001")
+    cs += [("get_breeze_state", tb), ("get_shutter_state", dict(position=40, direction="up"))]
+    return cs
+
+
 def run_job(job):
     res = Res()
-    cases = all_cases(job["tier"], job.get("seed", 0))[job["i"]::job["n"]]
-    run = Runner()
+    if "zone" in job:
+        cases = zone_cases(job["tier"])
+        run = Runner(job["zone"])
+    else:
+        cases = all_cases(job["tier"], job.get("seed", 0))[job["i"]::job["n"]]
+        run = Runner()
     try:
         for op, f in cases:
             case = {"op": op, "fields": f}
+            if "zone" in job:
+                case["zone"] = job["zone"]
             out, writes = run.run(op, f)
             ok = judge(op, f, out, writes, res, case)
-            res.case((op, f), nontrivial=out[0] == "ok")
+            res.case((op, f, job.get("zone")), nontrivial=out[0] == "ok")
             if ok:
                 res.outcome(op)
             if ok and len(res.samples) < 1 and op != "login":
                 res.sample({"query": op, "encoded": f, "reply": build_reply(op, f).hex()})
     finally:
         run.close()
+        set_zone("UTC")
     return res
 
 
 def replay(case):
     res = Res()
-    run = Runner()
+    run = Runner(case.get("zone", "UTC"))
     try:
         out, writes = run.run(case["op"], case["fields"])
         judge(case["op"], case["fields"], out, writes, res, case)
     finally:
         run.close()
+        set_zone("UTC")
     return res.violations
 
 
